@@ -89,7 +89,7 @@ void fiber_scheduler_schedule(fiber_scheduler_t* scheduler,
   assert(scheduler);
   assert(the_fiber);
   wsd_work_stealing_deque_push_bottom(
-      ((fiber_scheduler_wsd_t*)scheduler)->schedule_from, the_fiber);
+      ((fiber_scheduler_wsd_t*)scheduler)->store_to, the_fiber);
 }
 
 fiber_t* fiber_scheduler_next(fiber_scheduler_t* sched) {
